@@ -72,6 +72,12 @@ func c06E6(r *core.R) {
 					r.Bad(c, e.Pos(), "%s: an out-of-range reference in a damaged block makes this goroutine panic, which kills the calling process", why)
 				}
 			case *ast.SliceExpr:
+				// the pipeline's channel slices belong to C02.Q1 (see the index case above)
+				if sl, ok := info.TypeOf(e.X).Underlying().(*types.Slice); ok {
+					if _, isChan := sl.Elem().Underlying().(*types.Chan); isChan {
+						return true
+					}
+				}
 				// slices of the scratch buffers (known constant capacity) are decided by E3
 				if caps := c06BufferCaps(r, m); caps.key(e.X) != nil {
 					if _, isBuf := caps.capOf[caps.key(e.X)]; isBuf {
@@ -87,8 +93,10 @@ func c06E6(r *core.R) {
 				}
 				if e.Low == nil && hi0 && e.Max == nil {
 					r.OKTrivial(c, e.Pos(), "x[:0] is always in range")
+				} else if ok, why := c06SliceProof(r, info, fi, e); ok {
+					r.OK(c, e.Pos(), "%s", why)
 				} else {
-					r.Bad(c, e.Pos(), "slice expression with non-constant bounds has no proof in the idiom list")
+					r.Bad(c, e.Pos(), "slice expression without a bounds proof: %s: bounds taken from a damaged block make this goroutine panic, which kills the calling process", why)
 				}
 			case *ast.StarExpr:
 				// explicit dereference of a message field (directly or through a local it was read into)
@@ -202,6 +210,7 @@ func c06IndexProof(r *core.R, info *types.Info, fi *FuncInfo, g *cfg.CFG, dom ma
 	// (c)+(d) the branch conditions controlling the use establish index < len(x) (loop condition, guard with an
 	// error exit, inverted or merged guards alike) and the index cannot be negative
 	facts := factsAt(info, g, dom, ub)
+	facts = append(facts, c06ShortCircuitFacts(par, e)...)
 	isIdx := func(x ast.Expr) bool {
 		return c06SameValue(info, fi.Decl.Body, x, fi.Decl.Body, e.Index)
 	}
@@ -254,6 +263,14 @@ func c06IndexProof(r *core.R, info *types.Info, fi *FuncInfo, g *cfg.CFG, dom ma
 			}
 			if idxObj == nil || c06CountAssigns(info, fi.Decl.Body, idxObj, from, e.Pos()) == 0 {
 				return true, fmt.Sprintf("0 <= %s <= %d on every path to the use, within the array's %d elements (%s)", src(r.P.Fset, e.Index), bd.upper, at.Len(), strings.Join(bd.proof, "; "))
+			}
+		}
+	}
+	// a constant index under a guard on the length (`len(x) == 0` excluded, `len(x) > 2` established ...)
+	if cv, isConst := constInt(info, e.Index); isConst && cv >= 0 {
+		if ft := c06LenAtLeast(info, fi.Decl.Body, facts, e.X, cv+1); ft != nil {
+			if ro := c01RootObj(info, e.X); ro == nil || c06CountAssigns(info, fi.Decl.Body, ro, ft.expr.End(), e.Pos()) == 0 {
+				return true, fmt.Sprintf("constant index %d, and the use is only reached when `%s` is %v", cv, src(r.P.Fset, ft.expr), ft.val)
 			}
 		}
 	}
